@@ -165,6 +165,11 @@ def decorator_text(case, i, ind):
     if layout == 6:      # neighbouring decorators of other kinds above and below
         return ["%s@icontract.ensure(lambda result: True)" % ind, "%s@foreign" % ind,
                 "%s@icontract.require(%s%s)" % (ind, lam, extra), "%s@icontract.require(lambda: True)" % ind]
+    if layout in (7, 8):  # arguments on lines of their own; one line starts with a name that begins like a keyword
+        name = "default_description" if layout == 7 else "classified_as"
+        return ["%s%s = %r" % (ind, name, desc),
+                "%s@icontract.require(" % ind, "%s    %s," % (ind, lam), "%s    %s," % (ind, name),
+                "%s    a_repr=REPRS[%d])" % (ind, i)]
     raise ValueError(layout)
 
 
